@@ -159,7 +159,10 @@ class World:
                 if self.lose_inflight_on_raise and link is not None:
                     link.rx.clear()
                     link.last_arrival = self.now
-                raise EXC_CLASSES[f['exc']]("simulated %s on %s" % (f['exc'], kind))
+                cls = EXC_CLASSES[f['exc']]
+                if cls is serial.serialutil.PortNotOpenError:
+                    raise cls()
+                raise cls("simulated %s on %s" % (f['exc'], kind))
             if k == 'unplug':
                 self.fired['unplug'] += 1
                 if rec is not None:
@@ -180,6 +183,8 @@ class World:
     def replug(self, link):
         link.plugged = True
         link.device.power_on()
+        link.rx.clear()
+        link.last_arrival = self.now
         if link.handle is not None:
             # the old handle stays dead: a replugged device is a new OS device
             link.handle.dead = True
@@ -357,6 +362,7 @@ class SimSerial:
         if rec is not None:
             rec['wire'].setdefault(self.port, bytearray()).extend(data)
             rec['writes'].append([self.port, data.decode('latin-1')])
+            rec['trace'].append(['w', self.port, data.decode('latin-1')])
             owner_state = []
             for k, obj in enumerate(w.objects):
                 if obj is not None and getattr(obj, 'port', None) is self:
@@ -383,6 +389,7 @@ class SimSerial:
             w.log('io', self.port, 'read', data.decode('latin-1'))
             if rec is not None:
                 rec['reads'].append(data.decode('latin-1'))
+                rec['trace'].append(['r', self.port, data.decode('latin-1')])
             return data
         if T is None:
             raise SimHang("blocking read with infinite timeout and nothing in flight")
@@ -391,6 +398,7 @@ class SimSerial:
         w.log('io', self.port, 'read', '')
         if rec is not None:
             rec['reads'].append('')
+            rec['trace'].append(['r', self.port, ''])
         return b''
 
     def readline(self, size=-1):
@@ -441,6 +449,7 @@ class SimSerial:
         w.log('io', self.port, 'read', bytes(out).decode('latin-1'))
         if rec is not None:
             rec['reads'].append(bytes(out).decode('latin-1'))
+            rec['trace'].append(['r', self.port, bytes(out).decode('latin-1')])
         return bytes(out)
 
     @property
